@@ -12,7 +12,7 @@
    are outside the model.  [family_t] is the family on which the two views are claimed to
    coincide; outside it they differ (last theorem). *)
 From Coq Require Import List ZArith QArith String Bool.
-From SMD Require Import Model.Value Model.Order Model.Reflect Proofs.ReflectLaws.
+From SMD Require Import Model.Value Model.Order Model.Reflect Model.MapOps Proofs.ReflectLaws Proofs.MapOpsLaws.
 Import ListNotations.
 Open Scope list_scope.
 
@@ -33,6 +33,71 @@ Theorem C18_double_pointer_differs :
          json_view (GPtr (GPtr GInt)) (GVPtr (GVPtr (GVInt 1))) = Some (VInt 1).
 Proof. exact double_pointer_differs. Qed.
 Print Assumptions C18_double_pointer_differs.
+
+(* ---- Set / Delete through the Map interface, on the unstructured view (Model/MapOps.v):
+   exactly one binding changes, key order is kept, and a change made to the map found by
+   following a path changes nothing the path does not lead to.  Which representation is
+   behind the map (unstructured map of either key type, reflected Go map, reflected struct
+   reached through a pointer, a slice, a map of pointers or a map of struct values) is
+   outside the model: the correspondence run drives all of them (c18.mut). ---- *)
+Theorem C18_set_then_get :
+  forall (k : string) (v : value) (m : list (string * value)),
+         vmap_get k (vmap_set k v m) = Some v.
+Proof. exact get_set_same. Qed.
+Print Assumptions C18_set_then_get.
+
+Theorem C18_set_leaves_other_entries :
+  forall (k k' : string) (v : value) (m : list (string * value)),
+         k' <> k -> vmap_get k' (vmap_set k v m) = vmap_get k' m.
+Proof. exact get_set_other. Qed.
+Print Assumptions C18_set_leaves_other_entries.
+
+Theorem C18_set_keeps_order :
+  forall (k : string) (v : value) (m : list (string * value)),
+         sorted_keys m = true -> sorted_keys (vmap_set k v m) = true.
+Proof. exact set_sorted. Qed.
+Print Assumptions C18_set_keeps_order.
+
+Theorem C18_delete_then_get :
+  forall (k : string) (m : list (string * value)),
+         sorted_keys m = true -> vmap_get k (vmap_delete k m) = None.
+Proof. exact get_delete_same. Qed.
+Print Assumptions C18_delete_then_get.
+
+Theorem C18_delete_leaves_other_entries :
+  forall (k k' : string) (m : list (string * value)),
+         k' <> k -> vmap_get k' (vmap_delete k m) = vmap_get k' m.
+Proof. exact get_delete_other. Qed.
+Print Assumptions C18_delete_leaves_other_entries.
+
+Theorem C18_delete_keeps_order :
+  forall (k : string) (m : list (string * value)),
+         sorted_keys m = true -> sorted_keys (vmap_delete k m) = true.
+Proof. exact delete_sorted. Qed.
+Print Assumptions C18_delete_keeps_order.
+
+Theorem C18_delete_absent_is_identity :
+  forall (k : string) (m : list (string * value)),
+         vmap_get k m = None -> vmap_delete k m = m.
+Proof. exact delete_absent. Qed.
+Print Assumptions C18_delete_absent_is_identity.
+
+Theorem C18_update_below_path_frame :
+  forall (p : list mstep) (f : list (string * value) -> list (string * value))
+           (v v' : value) (q : list mstep),
+         update_at p f v = Some v' -> diverges p q -> lookup_at q v' = lookup_at q v.
+Proof. exact update_at_frame. Qed.
+Print Assumptions C18_update_below_path_frame.
+
+Theorem C18_update_below_path_target :
+  forall (p : list mstep) (f : list (string * value) -> list (string * value))
+           (v v' : value),
+         update_at p f v = Some v' ->
+         exists m : list (string * value),
+           lookup_at p v = Some (VMap m) /\ lookup_at p v' = Some (VMap (f m)).
+Proof. exact update_at_target. Qed.
+Print Assumptions C18_update_below_path_target.
+
 
 (* non-vacuity: a struct with an omitted field, a pointer field and a nil inlined pointer *)
 Example C18_family_example :
